@@ -48,7 +48,7 @@ func c20Cases() []c20Case {
 		for _, oc := range []string{"304", "200", "200-nostore", "500", "err", "body-fail"} {
 			for _, to := range []string{"unset", "-1s", "0", "1ns", "1s", "5s", "1h"} {
 				for _, cx := range []string{"background", "cancelled-before", "cancelled-after", "deadline-before-T", "deadline-after-T"} {
-					for vi, v := range []string{"etag", "lm", "both", "none"} {
+					for vi, v := range []string{"etag", "lm", "both", "none", "etag-qualified", "both-qualified"} {
 						// validators x row are folded to keep the grid near 8k
 						row := 1 + (vi+len(out))%3
 						out = append(out, c20Case{lat, oc, to, cx, v, row})
@@ -104,11 +104,16 @@ func c20Run(r *run.Runner, c c20Case) {
 	const L, W = 10, 100000
 	phase := 0
 	stored := RespSpec{Status: 200, CC: []string{fmt.Sprintf("max-age=%d, stale-while-revalidate=%d", L, W)}, BodySize: 10}
-	if c.Validators == "etag" || c.Validators == "both" {
+	if strings.HasPrefix(c.Validators, "etag") || strings.HasPrefix(c.Validators, "both") {
 		stored.ETag = `"v"`
 	}
-	if c.Validators == "lm" || c.Validators == "both" {
+	if c.Validators == "lm" || strings.HasPrefix(c.Validators, "both") {
 		stored.LastMod = "-1000"
+	}
+	if strings.HasSuffix(c.Validators, "-qualified") {
+		// the validator fields are named by a qualified no-cache: they are not
+		// replayed to the client, but the background request still carries them
+		stored.CC[0] += `, no-cache="ETag, Last-Modified"`
 	}
 	w := sim.NewWorld(sim.WorldOpt{SWRTimeout: opt, Handler: func(uc *sim.UpCall, req *http.Request) *sim.Reply {
 		if phase == 0 {
